@@ -129,6 +129,13 @@ CHECKS["C19"] = dict(
     ref="DESIGN.md 5.5, 8 (C19)",
     technique="TLC model checking of Isolation.tla + replay of TLC-exported paths + TLC trace validation of complete read-backs (IsolationTrace.tla)")
 
+CHECKS["C06"] = dict(
+    text="Conflict.tla states newest-wins for reads, read-repair targets and merges; TLC enumerates all 256 copy layouts and all delivery orders (with re-delivery) of up to three "
+         "fragments against the code-shaped algorithms. On a real 4-member cluster with a fragmented partition every layout is planted white box, read through a random client "
+         "path with read-repair off and on, and read back; fragments are delivered to a real member in every order; TLC (ConflictTrace.tla) judges with the same abstract rules.",
+    ref="DESIGN.md 5.4, 8 (C06)",
+    technique="exhaustive TLC enumeration of Conflict.tla / ConflictMerge.tla + exhaustive replay on a real cluster + TLC trace validation")
+
 NOT_YET = {}
 
 def main():
